@@ -481,8 +481,8 @@ def check(r):
     if r.tier == 'quick':
         fails = numeric(r, n_traj=6, n_rest=20, dts=(0.1, 0.05))
     else:
-        fails = numeric(r, n_traj=45, n_rest=300, dts=(0.1, 0.05, 0.025, 0.0125))
-        for k in range(200):
+        fails = numeric(r, n_traj=120, n_rest=1000, dts=(0.1, 0.05, 0.025, 0.0125))
+        for k in range(1000):
             f, rep = poly_case(r.seed, k)
             r.case(('poly', k))
             for x in f[:1]:
